@@ -60,7 +60,7 @@ def pools(cls, seed=0, md5_salt_len=4):
 
 LEADING = ["", " ", "    ", "\t", '"', "'", "{", ":", 'something " ', "something ' ", "something { ",
            "something : ", '      "', "\t{ ", "  ['", '   \\"']
-TRAILING = ["", '"', "'", "}", '" something', "' something", "} something", ";"]
+TRAILING = ["", '"', "'", "}", '" something', "' something", "} something", ";", " something", " level 2 hash"]
 QUOTING = [("", ""), ('"', '"'), ("'", "'"), ('\\"', '\\"'), ("[", "]"), ("{", "}")]
 
 
